@@ -623,18 +623,30 @@ Section GateProofs.
     intros s msg uid sig H. unfold verify_signature in H.
     destruct (auth_max_sig_len <? blen sig); [discriminate|].
     destruct (auth_max_user_id_len <? blen uid); [discriminate|].
+    destruct (auth_verify_rejects_reserved && is_reserved_id uid); [discriminate|].
     destruct (alookup uid (st_users s)) as [u|]; [|discriminate].
     apply andb_true_iff in H as [H1 H2]. beq. exists u. auto.
   Qed.
 
+  (** since fix 139a8cf no signature is accepted for a reserved id, whatever the store holds *)
+  Lemma verify_signature_not_reserved : forall s msg uid sig,
+    verify_signature hmac s msg uid sig = true -> is_reserved_id uid = false.
+  Proof.
+    intros s msg uid sig H. unfold verify_signature in H.
+    destruct (auth_max_sig_len <? blen sig); [discriminate|].
+    destruct (auth_max_user_id_len <? blen uid); [discriminate|].
+    change auth_verify_rejects_reserved with true in H. cbn [andb] in H.
+    destruct (is_reserved_id uid); [discriminate|reflexivity].
+  Qed.
+
   (** the converse, for signatures and ids within the length limits *)
   Lemma verify_signature_complete : forall s msg uid u,
-    alookup uid (st_users s) = Some u -> u_active u = true ->
+    alookup uid (st_users s) = Some u -> u_active u = true -> is_reserved_id uid = false ->
     blen (hmac (u_key u) msg) <= auth_max_sig_len -> blen uid <= auth_max_user_id_len ->
     verify_signature hmac s msg uid (hmac (u_key u) msg) = true.
   Proof.
-    intros s msg uid u L A B1 B2. unfold verify_signature.
-    apply N.ltb_ge in B1. apply N.ltb_ge in B2. rewrite B1, B2, L, A, bytes_eqb_refl. reflexivity.
+    intros s msg uid u L A R B1 B2. unfold verify_signature.
+    apply N.ltb_ge in B1. apply N.ltb_ge in B2. rewrite B1, B2, R, andb_false_r, L, A, bytes_eqb_refl. reflexivity.
   Qed.
 
   (** What a line must carry for the gate to hand a command on as user [uid]. *)
@@ -896,6 +908,150 @@ Qed.
 Lemma reachable_from_inactive : forall s0 s id, reachable_from s0 s -> inactive s0 id -> inactive s id.
 Proof. induction 1; intro I; [exact I|]. eapply step_inactive; eauto. Qed.
 
+(** * No account ever carries a reserved id (fix 139a8cf: [validate_user_id] rejects them) *)
+
+Definition no_reserved (s : state) : Prop :=
+  forall id, is_reserved_id id = true -> alookup id (st_users s) = None.
+
+Lemma validate_user_id_not_reserved : forall id, validate_user_id id = None -> is_reserved_id id = false.
+Proof.
+  intros id H. unfold validate_user_id in H.
+  destruct (is_nil id); [discriminate|]. destruct (auth_max_user_id_len <? blen id); [discriminate|].
+  destruct (negb (forallb id_char_ok id)); [discriminate|].
+  change auth_validate_rejects_reserved with true in H. cbn [andb] in H.
+  destruct (is_reserved_id id); [discriminate|reflexivity].
+Qed.
+
+Lemma put_user_no_reserved : forall s u, no_reserved s -> is_reserved_id (u_id u) = false -> no_reserved (put_user s u).
+Proof.
+  intros s u N R id H. unfold put_user, set_users_cache. cbn [st_users].
+  rewrite alookup_ainsert_other; [apply N; exact H|]. intro E. subst. congruence.
+Qed.
+
+Lemma existing_not_reserved : forall s id u, no_reserved s -> alookup id (st_users s) = Some u -> is_reserved_id id = false.
+Proof. intros s id u N L. destruct (is_reserved_id id) eqn:E; [|reflexivity]. rewrite (N id E) in L. discriminate. Qed.
+
+Lemma same_users_no_reserved : forall s s', st_users s' = st_users s -> no_reserved s -> no_reserved s'.
+Proof. intros s s' E N id H. rewrite E. apply N. exact H. Qed.
+
+Lemma create_user_no_reserved : forall s id key fk roles, no_reserved s -> no_reserved (snd (create_user s id key fk roles)).
+Proof.
+  intros s id key fk roles N. unfold create_user.
+  destruct (validate_user_id id) eqn:V; [exact N|].
+  destruct (match key with Some k => _ | None => false end); [exact N|].
+  destruct (alookup id (st_users s)); [exact N|]. cbn [snd].
+  apply put_user_no_reserved; [exact N|]. cbn [u_id]. apply validate_user_id_not_reserved. exact V.
+Qed.
+
+Lemma revoke_key_no_reserved : forall s id, no_reserved s -> no_reserved (snd (revoke_key s id)).
+Proof.
+  intros s id N. unfold revoke_key. destruct (alookup id (st_users s)) as [u|] eqn:L; [|exact N]. cbn [snd].
+  eapply same_users_no_reserved; [reflexivity|]. apply put_user_no_reserved; [exact N|]. cbn [u_id].
+  eapply existing_not_reserved; eauto.
+Qed.
+
+Lemma grant_permission_no_reserved : forall s id t p, no_reserved s -> no_reserved (snd (grant_permission s id t p)).
+Proof.
+  intros s id t p N. unfold grant_permission. destruct (alookup id (st_users s)) as [u|] eqn:L; [|exact N]. cbn [snd].
+  apply put_user_no_reserved; [exact N|]. cbn [u_id]. eapply existing_not_reserved; eauto.
+Qed.
+
+Lemma revoke_permission_no_reserved : forall s id t, no_reserved s -> no_reserved (snd (revoke_permission s id t)).
+Proof.
+  intros s id t N. unfold revoke_permission. destruct (alookup id (st_users s)) as [u|] eqn:L; [|exact N]. cbn [snd].
+  apply put_user_no_reserved; [exact N|]. cbn [u_id]. eapply existing_not_reserved; eauto.
+Qed.
+
+Lemma grant_loop_no_reserved : forall ts s r w id, no_reserved s -> no_reserved (snd (grant_loop s r w ts id)).
+Proof.
+  induction ts as [|t ts IH]; intros s r w id N; cbn [grant_loop]; [exact N|].
+  destruct (negb (smem t (st_schemas s))); [exact N|].
+  destruct (grant_permission s id t _) as [[e|] s'] eqn:G; [exact N|].
+  apply IH. change s' with (snd (@None auth_err, s')). rewrite <- G. apply grant_permission_no_reserved. exact N.
+Qed.
+
+Lemma revoke_loop_no_reserved : forall ts s r w id, no_reserved s -> no_reserved (snd (revoke_loop s r w ts id)).
+Proof.
+  induction ts as [|t ts IH]; intros s r w id N; cbn [revoke_loop]; [exact N|].
+  destruct (grant_permission s id t _) as [[e|] s'] eqn:G; [exact N|].
+  apply IH. change s' with (snd (@None auth_err, s')). rewrite <- G. apply grant_permission_no_reserved. exact N.
+Qed.
+
+Lemma dispatch_no_reserved : forall s who c k, no_reserved s -> no_reserved (snd (dispatch s who c k)).
+Proof.
+  intros s who c k N. destruct c; cbn [dispatch];
+    repeat match goal with
+    | |- no_reserved (snd (if ?b then _ else _)) => destruct b
+    | |- no_reserved (snd (match ?x with Some _ => _ | None => _ end)) => destruct x
+    | |- no_reserved (snd (_, s)) => exact N
+    end; try exact N;
+    try (eapply same_users_no_reserved; [|exact N]; reflexivity).
+  - destruct (create_user s id key k _) as [[e|] s'] eqn:C; [exact N|].
+    change s' with (snd (@None auth_err, s')). rewrite <- C. apply create_user_no_reserved. exact N.
+  - destruct (revoke_key s id) as [[e|] s'] eqn:C; [exact N|].
+    change s' with (snd (@None auth_err, s')). rewrite <- C. apply revoke_key_no_reserved. exact N.
+  - apply grant_loop_no_reserved. exact N.
+  - apply revoke_loop_no_reserved. exact N.
+Qed.
+
+Lemma step_no_reserved : forall s s', step s s' -> no_reserved s -> no_reserved s'.
+Proof.
+  intros s s' H N. destruct H.
+  - apply create_user_no_reserved; exact N.
+  - apply revoke_key_no_reserved; exact N.
+  - apply grant_permission_no_reserved; exact N.
+  - apply revoke_permission_no_reserved; exact N.
+  - eapply same_users_no_reserved; [|exact N]; reflexivity.
+  - eapply same_users_no_reserved; [|exact N]; reflexivity.
+  - eapply same_users_no_reserved; [|exact N]; reflexivity.
+  - apply dispatch_no_reserved; exact N.
+  - pose proof (gate_tcp_users hmac cfg s conn line now tok) as [E1 _]. cbn zeta in E1.
+    eapply same_users_no_reserved; eassumption.
+  - eapply same_users_no_reserved; [|exact N]; reflexivity.
+Qed.
+
+(** In every reachable state no user record is named "bypass" or "no-auth". *)
+Theorem reachable_no_reserved : forall s, reachable s -> no_reserved s.
+Proof.
+  unfold reachable. induction 1.
+  - intros id _. reflexivity.
+  - eapply step_no_reserved; eauto.
+Qed.
+
+(** Hence, with authentication on, no request is ever attributed to a reserved id: the identity
+    for which the handlers skip their checks cannot be obtained through a gate. *)
+Theorem gate_never_reserved : forall hmac cfg s conn line now tok,
+  reachable s -> auth_on cfg ->
+  match fst (fst (gate_tcp hmac cfg s conn line now tok)) with
+  | GDispatch _ u => is_reserved_id u = false
+  | GAuthOk u => is_reserved_id u = false
+  | GReject => True
+  end.
+Proof.
+  intros hmac cfg s conn line now tok R On. pose proof (reachable_no_reserved s R) as N.
+  destruct (gate_tcp hmac cfg s conn line now tok) as [[r c'] s''] eqn:G. cbn [fst].
+  destruct r as [|au|text du]; [exact I| |].
+  - apply auth_sound in G as (u0 & sig & L0 & _); [|exact On]. eapply existing_not_reserved; eauto.
+  - apply gate_sound in G as (C & _); [|exact On]. apply credential_active in C as (u0 & L0 & _).
+    eapply existing_not_reserved; eauto.
+Qed.
+
+Theorem gate_unix_never_reserved : forall hmac cfg s line text uid,
+  reachable s -> auth_on cfg -> gate_unix hmac cfg s line = GDispatch text uid -> is_reserved_id uid = false.
+Proof.
+  intros hmac cfg s line text uid R On G. apply gate_unix_sound in G; [|exact On].
+  apply credential_active in G as (u0 & L0 & _). eapply existing_not_reserved; [apply reachable_no_reserved|]; eauto.
+Qed.
+
+Theorem gate_http_never_reserved : forall hmac cfg s hdr body text uid,
+  reachable s -> auth_on cfg -> gate_http hmac cfg s hdr body = GDispatch text uid -> is_reserved_id uid = false.
+Proof.
+  intros hmac cfg s hdr body text uid R On G. apply gate_http_sound in G; [|exact On].
+  destruct G as [(u & sig & _ & _ & L & _)|(_ & C)].
+  - eapply existing_not_reserved; [apply reachable_no_reserved|]; eauto.
+  - apply credential_active in C as (u0 & L0 & _). eapply existing_not_reserved; [apply reachable_no_reserved|]; eauto.
+Qed.
+
 (** Revoking a key takes effect for the next request — and for every later one, whatever
     happens in between (restart included): nothing is dispatched or AUTH-accepted for the user,
     neither by signature nor by a token issued earlier. *)
@@ -1013,26 +1169,21 @@ Definition policy (s : state) (who : option bytes) (c : cmd) : Prop :=
   | _ => exists uid, who = Some uid /\ needs s uid c
   end.
 
-(** C13 as stated: whatever is executed was authorised. *)
+(** C13 as stated: whatever is executed was authorised.  The caller's identity is whatever a gate
+    can hand to the dispatcher; since fix 139a8cf that is never the reserved id for which the
+    handlers skip their checks ([gate_never_reserved]). *)
 Definition authorized_only : Prop :=
-  forall s who c k s', reachable s -> dispatch s who c k = (OExec, s') -> policy s who c.
+  forall s who c k s', reachable s -> who <> Some auth_bypass_id ->
+    dispatch s who c k = (OExec, s') -> policy s who c.
 
-(** the known classes of violating inputs (decidable, by command kind and identity) *)
-Definition checked_kind (c : cmd) : bool :=
-  match c with
-  | CStore _ | CQuery _ | CDefine _ | CCreateUser _ _ _ | CRevokeKey _ | CListUsers
-  | CGrant _ _ _ _ | CRevokePerm _ _ _ _ | CShowPerms _ => true
-  | _ => false
-  end.
-Definition ReservedUserId (who : option bytes) (c : cmd) : bool :=
-  match who with Some u => bytes_eqb u auth_bypass_id && checked_kind c | None => false end.
+(** the known classes of violating inputs (decidable, by command kind only) *)
 Definition UncheckedReadCommand (c : cmd) : bool :=
   match c with CReplay _ _ | CShow _ | CRemember _ _ | CCompare _ => true | _ => false end.
 Definition FlushNoRole (c : cmd) : bool := match c with CFlush => true | _ => false end.
 Definition SequenceTailUnchecked (c : cmd) : bool :=
   match c with CQuery (_, _ :: _) => true | _ => false end.
-Definition KnownClass (who : option bytes) (c : cmd) : bool :=
-  ReservedUserId who c || UncheckedReadCommand c || FlushNoRole c || SequenceTailUnchecked c.
+Definition KnownClass (c : cmd) : bool :=
+  UncheckedReadCommand c || FlushNoRole c || SequenceTailUnchecked c.
 
 Lemma reserved_id_is_bypass : auth_bypass_id = bs "bypass".
 Proof. reflexivity. Qed.
@@ -1061,12 +1212,13 @@ Ltac exec_check H :=
   end.
 
 Theorem outside_known : forall s who c k s',
-  wf s -> KnownClass who c = false -> dispatch s who c k = (OExec, s') -> policy s who c.
+  wf s -> who <> Some auth_bypass_id -> KnownClass c = false ->
+  dispatch s who c k = (OExec, s') -> policy s who c.
 Proof.
-  intros s who c k s' W K H. unfold KnownClass in K.
-  apply orb_false_iff in K as [K K4]. apply orb_false_iff in K as [K K3]. apply orb_false_iff in K as [K1 K2].
-  assert (NB : forall u, who = Some u -> checked_kind c = true -> u <> auth_bypass_id).
-  { intros u -> CK E. subst u. unfold ReservedUserId in K1. rewrite bytes_eqb_refl, CK in K1. discriminate. }
+  intros s who c k s' W NBy K H. unfold KnownClass in K.
+  apply orb_false_iff in K as [K K4]. apply orb_false_iff in K as [K2 K3].
+  assert (NB : forall u, who = Some u -> true = true -> u <> auth_bypass_id).
+  { intros u -> _ E. subst u. apply NBy. reflexivity. }
   destruct c; try discriminate K2; try discriminate K3; cbn [dispatch] in H; cbn [policy needs].
   - (* STORE *)
     change auth_ident_store with true in H. cbv iota in H. exec_check H.
@@ -1138,17 +1290,16 @@ Proof.
     change auth_ident_flush with false; reflexivity.
 Qed.
 
-(** ** (a) the reserved id can be created *)
-Theorem reserved_id_creatable : forall s key fk roles,
-  alookup auth_bypass_id (st_users s) = None -> blen key <= auth_max_key_len ->
-  exists s', create_user s auth_bypass_id (Some key) fk roles = (None, s') /\
-             exists u, alookup auth_bypass_id (st_users s') = Some u /\ u_active u = true /\ u_roles u = roles.
+(** ** (a) repaired by 139a8cf: the reserved ids cannot be created *)
+Theorem reserved_id_rejected : forall s id key fk roles,
+  is_reserved_id id = true ->
+  create_user s id key fk roles = (Some EInvalidId, s).
 Proof.
-  intros s key fk roles L B. unfold create_user.
-  assert (V : validate_user_id auth_bypass_id = None) by (vm_compute; reflexivity).
-  rewrite V. apply N.ltb_ge in B. rewrite B, L. eexists. split; [reflexivity|].
-  unfold put_user, set_users_cache. cbn [st_users u_id]. rewrite alookup_ainsert_same.
-  eexists. repeat split.
+  intros s id key fk roles R. unfold create_user.
+  assert (V : validate_user_id id = Some EInvalidId).
+  { unfold validate_user_id. destruct (is_nil id); [reflexivity|].
+    unfold is_reserved_id in R. apply orb_true_iff in R as [R|R]; beq; subst id; vm_compute; reflexivity. }
+  rewrite V. reflexivity.
 Qed.
 
 (** ** Witnesses *)
@@ -1157,8 +1308,7 @@ Definition w_state : state :=
   let s1 := snd (create_user state_empty (bs "root") (Some (bs "rootkey")) [] [bs "admin"]) in
   let s2 := snd (dispatch s1 w_root (CDefine (bs "ta")) []) in
   let s3 := snd (dispatch s2 w_root (CDefine (bs "tb")) []) in
-  let s4 := snd (dispatch s3 w_root (CCreateUser (bs "bypass") (Some (bs "kb")) None) []) in
-  let s5 := snd (dispatch s4 w_root (CCreateUser (bs "rd") (Some (bs "k1")) None) []) in
+  let s5 := snd (dispatch s3 w_root (CCreateUser (bs "rd") (Some (bs "k1")) None) []) in
   let s6 := snd (dispatch s5 w_root (CGrant true false [bs "ta"] (bs "rd")) []) in
   snd (dispatch s6 w_root (CRemember (bs "mb") (bs "tb", [])) []).
 
@@ -1177,16 +1327,6 @@ Lemma not_reader : forall uid t, can_read (st_cache w_state) uid t = false -> ~ 
 Proof. intros uid t H A. apply (can_read_spec _ _ _ w_state_wf) in A. congruence. Qed.
 Lemma not_writer : forall uid, writer_role (st_cache w_state) uid = false -> ~ writer_user (st_users w_state) uid.
 Proof. intros uid H A. apply (writer_role_spec _ _ w_state_wf) in A. congruence. Qed.
-
-(** (a) user "bypass" (no role, no permission) creates an admin account *)
-Lemma refute_reserved :
-  exists s', dispatch w_state (Some (bs "bypass")) (CCreateUser (bs "evil") (Some (bs "e")) (Some [bs "admin"])) [] = (OExec, s')
-  /\ ReservedUserId (Some (bs "bypass")) (CCreateUser (bs "evil") (Some (bs "e")) (Some [bs "admin"])) = true
-  /\ ~ policy w_state (Some (bs "bypass")) (CCreateUser (bs "evil") (Some (bs "e")) (Some [bs "admin"])).
-Proof.
-  eexists. split; [vm_compute; reflexivity|]. split; [reflexivity|].
-  intros (uid & E & A). inversion E; subst uid. revert A. apply not_admin. vm_compute. reflexivity.
-Qed.
 
 (** (b) user "rd" (read permission on "ta" only) replays a context holding "ta" and "tb" events *)
 Lemma refute_replay :
@@ -1249,29 +1389,33 @@ Proof.
   specialize (A (bs "tb") (or_intror (or_introl eq_refl))). revert A. apply not_reader. vm_compute. reflexivity.
 Qed.
 
+Definition rd_is_not_bypass : Some (bs "rd") <> Some auth_bypass_id.
+Proof. discriminate. Qed.
+
 Theorem authorized_only_refuted :
   ~ authorized_only /\
-  (exists s who c k s', reachable s /\ dispatch s who c k = (OExec, s') /\ ReservedUserId who c = true /\ ~ policy s who c) /\
-  (exists s who c k s', reachable s /\ dispatch s who c k = (OExec, s') /\ UncheckedReadCommand c = true /\ ~ policy s who c) /\
-  (exists s who c k s', reachable s /\ dispatch s who c k = (OExec, s') /\ FlushNoRole c = true /\ ~ policy s who c) /\
-  (exists s who c k s', reachable s /\ dispatch s who c k = (OExec, s') /\ SequenceTailUnchecked c = true /\ ~ policy s who c).
+  (exists s who c k s', reachable s /\ who <> Some auth_bypass_id /\ dispatch s who c k = (OExec, s') /\ UncheckedReadCommand c = true /\ ~ policy s who c) /\
+  (exists s who c k s', reachable s /\ who <> Some auth_bypass_id /\ dispatch s who c k = (OExec, s') /\ FlushNoRole c = true /\ ~ policy s who c) /\
+  (exists s who c k s', reachable s /\ who <> Some auth_bypass_id /\ dispatch s who c k = (OExec, s') /\ SequenceTailUnchecked c = true /\ ~ policy s who c).
 Proof.
-  split; [|split; [|split; [|split]]].
-  - intro A. destruct refute_flush as (s' & D & _ & N). apply N. eapply A; [apply w_state_reachable|exact D].
-  - destruct refute_reserved as (s' & D & K & N). do 5 eexists. split; [apply w_state_reachable|]. eauto.
-  - destruct refute_replay as (s' & D & K & N). do 5 eexists. split; [apply w_state_reachable|]. eauto.
-  - destruct refute_flush as (s' & D & K & N). do 5 eexists. split; [apply w_state_reachable|]. eauto.
-  - destruct refute_sequence as (s' & D & K & N). do 5 eexists. split; [apply w_state_reachable|]. eauto.
+  split; [|split; [|split]].
+  - intro A. destruct refute_flush as (s' & D & _ & N). apply N.
+    eapply A; [apply w_state_reachable|apply rd_is_not_bypass|exact D].
+  - destruct refute_replay as (s' & D & K & N). do 5 eexists. split; [apply w_state_reachable|]. split; [apply rd_is_not_bypass|]. eauto.
+  - destruct refute_flush as (s' & D & K & N). do 5 eexists. split; [apply w_state_reachable|]. split; [apply rd_is_not_bypass|]. eauto.
+  - destruct refute_sequence as (s' & D & K & N). do 5 eexists. split; [apply w_state_reachable|]. split; [apply rd_is_not_bypass|]. eauto.
 Qed.
 
 (** the hypotheses of [outside_known] are satisfiable: a plain QUERY by "rd" is executed, is in no
-    known class, and a STORE by "rd" is refused *)
+    known class, and a STORE by "rd" is refused; CREATE USER bypass by the admin is refused *)
 Example outside_known_inhabited :
-  KnownClass (Some (bs "rd")) (CQuery (bs "ta", [])) = false /\
+  KnownClass (CQuery (bs "ta", [])) = false /\
   fst (dispatch w_state (Some (bs "rd")) (CQuery (bs "ta", [])) []) = OExec /\
   fst (dispatch w_state (Some (bs "rd")) (CQuery (bs "tb", [])) []) = O403 /\
   fst (dispatch w_state (Some (bs "rd")) (CStore (bs "ta")) []) = O403 /\
-  fst (dispatch w_state None (CStore (bs "ta")) []) = O401.
+  fst (dispatch w_state None (CStore (bs "ta")) []) = O401 /\
+  dispatch w_state w_root (CCreateUser (bs "bypass") (Some (bs "kb")) (Some [bs "admin"])) [] = (O400, w_state) /\
+  dispatch w_state w_root (CCreateUser (bs "no-auth") (Some (bs "kb")) None) [] = (O400, w_state).
 Proof. repeat split; vm_compute; reflexivity. Qed.
 
 (** * End to end: a TCP line that gets a command executed *)
@@ -1279,19 +1423,53 @@ Section EndToEnd.
   Variable hmac : bytes -> bytes -> bytes.
   Variable parse : bytes -> option cmd.
 
+  (** Every executed command came with a credential of the executing user, who is not a
+      reserved id, and - outside the known classes - was entitled to it. *)
   Theorem served_outside_known : forall cfg s conn line now tok key c uid conn' s',
-    wf s -> auth_on cfg ->
+    reachable s -> auth_on cfg ->
     serve_tcp hmac parse cfg s conn line now tok key = (SOut c uid OExec, conn', s') ->
     exists text, credential hmac s conn now line text uid /\ parse text = Some c /\
-                 (KnownClass (Some uid) c = false -> policy s (Some uid) c).
+                 is_reserved_id uid = false /\
+                 (KnownClass c = false -> policy s (Some uid) c).
   Proof.
-    intros cfg s conn line now tok key c uid conn' s' W On H. unfold serve_tcp in H.
-    destruct (gate_tcp hmac cfg s conn line now tok) as [[r c1] s1] eqn:G.
+    intros cfg s conn line now tok key c uid conn' s' R On H. unfold serve_tcp in H.
+    pose proof (gate_never_reserved hmac cfg s conn line now tok R On) as NR.
+    destruct (gate_tcp hmac cfg s conn line now tok) as [[r c1] s1] eqn:G. cbn [fst] in NR.
     unfold after_gate in H. destruct r as [|au|text du]; try (inversion H; fail).
     destruct (parse text) as [c0|] eqn:P; [|inversion H].
     destruct (dispatch s1 (Some du) c0 key) as [o s2] eqn:D. inversion H; subst. clear H.
     apply gate_sound in G as (C & _ & ->); [|exact On].
-    exists text. split; [exact C|]. split; [exact P|]. intro K. eapply outside_known; eauto.
+    exists text. split; [exact C|]. split; [exact P|]. split; [exact NR|].
+    intro K. eapply outside_known; eauto; [apply reachable_wf; exact R|].
+    intro E. inversion E; subst. vm_compute in NR. discriminate.
+  Qed.
+
+  Theorem served_unix_outside_known : forall cfg s line key c uid s',
+    reachable s -> auth_on cfg ->
+    serve_unix hmac parse cfg s line key = (SOut c uid OExec, s') ->
+    is_reserved_id uid = false /\ (KnownClass c = false -> policy s (Some uid) c).
+  Proof.
+    intros cfg s line key c uid s' R On H. unfold serve_unix, after_gate in H.
+    destruct (gate_unix hmac cfg s line) as [|au|text du] eqn:G; try (inversion H; fail).
+    destruct (parse text) as [c0|]; [|inversion H].
+    destruct (dispatch s (Some du) c0 key) as [o s2] eqn:D. inversion H; subst. clear H.
+    pose proof (gate_unix_never_reserved _ _ _ _ _ _ R On G) as NR. split; [exact NR|].
+    intro K. eapply outside_known; eauto; [apply reachable_wf; exact R|].
+    intro E. inversion E; subst. vm_compute in NR. discriminate.
+  Qed.
+
+  Theorem served_http_outside_known : forall cfg s hdr body key c uid s',
+    reachable s -> auth_on cfg ->
+    serve_http hmac parse cfg s hdr body key = (SOut c uid OExec, s') ->
+    is_reserved_id uid = false /\ (KnownClass c = false -> policy s (Some uid) c).
+  Proof.
+    intros cfg s hdr body key c uid s' R On H. unfold serve_http, after_gate in H.
+    destruct (gate_http hmac cfg s hdr body) as [|au|text du] eqn:G; try (inversion H; fail).
+    destruct (parse text) as [c0|]; [|inversion H].
+    destruct (dispatch s (Some du) c0 key) as [o s2] eqn:D. inversion H; subst. clear H.
+    pose proof (gate_http_never_reserved _ _ _ _ _ _ _ R On G) as NR. split; [exact NR|].
+    intro K. eapply outside_known; eauto; [apply reachable_wf; exact R|].
+    intro E. inversion E; subst. vm_compute in NR. discriminate.
   Qed.
 End EndToEnd.
 
@@ -1339,15 +1517,9 @@ Theorem revoke_perm_reachable : forall s who r w ts id k s' t,
 Proof. intros. eapply revoke_perm_next; eauto. apply reachable_wf. assumption. Qed.
 
 Theorem outside_known_reachable : forall s who c k s',
-  reachable s -> KnownClass who c = false -> dispatch s who c k = (OExec, s') -> policy s who c.
+  reachable s -> who <> Some auth_bypass_id -> KnownClass c = false ->
+  dispatch s who c k = (OExec, s') -> policy s who c.
 Proof. intros. eapply outside_known; eauto. apply reachable_wf. assumption. Qed.
-
-Theorem served_reachable : forall hmac parse cfg s conn line now tok key c uid conn' s',
-  reachable s -> auth_on cfg ->
-  serve_tcp hmac parse cfg s conn line now tok key = (SOut c uid OExec, conn', s') ->
-  exists text, credential hmac s conn now line text uid /\ parse text = Some c /\
-               (KnownClass (Some uid) c = false -> policy s (Some uid) c).
-Proof. intros. eapply served_outside_known; eauto. apply reachable_wf. assumption. Qed.
 
 (** * GRANT / REVOKE naming several event types *)
 
